@@ -256,9 +256,9 @@ theorem C02_pub2in_is_fifo (enc : Pub → List UInt8) (ackb : Nat → List UInt8
     (∀ pg, Fifo.collect ⟨q.map (proj enc ackb), pg⟩ =
         (⟨(q2Acked q).1.map (proj enc ackb), pg⟩, (q2Acked q).2.map (proj enc ackb))) ∧
     (∀ ops : List QOp,
-      (Fifo.run ⟨q.map (proj enc ackb), none⟩ (ops.map (toOp enc ackb))).1 =
-        ⟨(qrun q ops).1.map (proj enc ackb), none⟩ ∧
-      (Fifo.run ⟨q.map (proj enc ackb), none⟩ (ops.map (toOp enc ackb))).2 =
+      (Fifo.run ⟨q.map (proj enc ackb), []⟩ (ops.map (toOp enc ackb))).1 =
+        ⟨(qrun q ops).1.map (proj enc ackb), []⟩ ∧
+      (Fifo.run ⟨q.map (proj enc ackb), []⟩ (ops.map (toOp enc ackb))).2 =
         (List.zip (qrun q ops).2 ops).map (fun x => qout enc ackb x.1 x.2) ∧
       States (qrun q ops).1) :=
   ⟨fun pg p => sim_register enc ackb q pg p, fun pg id => sim_ackId enc ackb q pg id,
@@ -282,7 +282,7 @@ broker model keeps, and every `Acked` hands back the projection of the entries
 the list releases. -/
 theorem C02_pub2in_is_ackqueue (enc : Pub → List UInt8) (ackb : Nat → List UInt8) (ops : List QOp) :
     abs (Mqtt.Model.AckQueue.run init (ops.map (toOp enc ackb))).1 =
-      ⟨(qrun [] ops).1.map (proj enc ackb), none⟩ ∧
+      ⟨(qrun [] ops).1.map (proj enc ackb), []⟩ ∧
     (Mqtt.Model.AckQueue.run init (ops.map (toOp enc ackb))).2.map C13.outAbs =
       (List.zip (qrun [] ops).2 ops).map (fun x => qout enc ackb x.1 x.2) := by
   obtain ⟨h1, h2⟩ := C13.C13_refines_init (ops.map (toOp enc ackb))
